@@ -332,7 +332,9 @@ def run_doc(ctx: Ctx, mon: Mon, ldr, doc: dict, desc: dict, nontrivial: bool, fe
 
 def graph_cases(ctx: Ctx, nset: int, idx_in_set: int):
     """Yield (desc, doc, nontrivial, feats) for this worker (idx_in_set of nset workers share one setting)."""
-    schemes = ["plain", "prefix", "itemish"] if ctx.quick else ["plain", "prefix", "propcase", "itemish"]
+    # "rewritten": declared names that class-name derivation rewrites (HTTPAlpha, beta_node): the tracker keys its states by the
+    # declared name, the registry of finished schemas by the derived one
+    schemes = ["plain", "prefix", "itemish", "rewritten"] if ctx.quick else ["plain", "prefix", "propcase", "itemish", "rewritten"]
     i = 0
     for edges in graphgen.all_graphs(2):
         for order in itertools.permutations(range(2)):
